@@ -175,6 +175,21 @@ fn ip6_strategy() -> impl Strategy<Value = Ipv6Addr> {
         1 => any::<u128>().prop_map(Ipv6Addr::from),
         1 => Just("64:ff9b::".parse().unwrap()),
         1 => Just(Ipv6Addr::from(u128::MAX)),
+        // one of each class of address that the address architecture sets apart (RFC 4291,
+        // 4193, 6052, 3849): unspecified, loopback, link-local, site-local, unique local,
+        // multicast, v4-mapped, 6to4, Teredo, documentation
+        2 => (any::<u16>(), any::<u16>()).prop_map(|(i, low)| {
+            const SPECIAL: [&str; 16] = [
+                "::", "::1", "fe80::", "fe80::1", "fe80:0:0:1::", "febf:ffff::", "fec0::", "fc00::", "fd00:1:2:3::", "ff02::1", "ff05::", "::ffff:192.0.2.1", "2002:c000:201::",
+                "2001::", "2001:db8::", "100::",
+            ];
+            let a: Ipv6Addr = SPECIAL[pick_idx(i, SPECIAL.len())].parse().unwrap();
+            if low & 3 == 0 {
+                Ipv6Addr::from(u128::from(a) | (low >> 2) as u128)
+            } else {
+                a
+            }
+        }),
     ]
 }
 
@@ -746,7 +761,7 @@ pub fn judge_ra(c: &RaCase, mtu_param: Option<u32>, ra: &Ra, unrepresentable: bo
     }
     // RDNSS
     let want_servers: Option<Vec<Ipv6Addr>> = match i.rdnss.as_ref().map(|r| &r.addresses) {
-        Some(Tri::Val(v)) => Some(v.iter().map(|a| match a { Addr6::SelfAddr => c.self6, Addr6::Ip(ip) => *ip }).collect()),
+        Some(Tri::Val(v)) => Some(v.iter().map(|a| match a { Addr6::SelfAddr => c.self6, Addr6::Ip(ip) if ip.is_unspecified() => c.self6, Addr6::Ip(ip) => *ip }).collect()),
         Some(Tri::Null) => None,
         _ => {
             // top-level default (which itself defaults to [$self4, $self6])
